@@ -223,7 +223,7 @@ impl Prop for C11 {
     type Case = Case;
 
     fn rule() -> String {
-        "event programs (as C02/C03) x 0..3 Builder calls max_itr(n) / max_time(T) / limit(tree of EventCount, SimTime, CombinedAnd, CombinedOr, depth \
+        "event programs (as C02/C03) x 0..3 Builder calls max_itr(n) / max_time(T) / limit(tree of EventCount, SimTime, None, CombinedAnd, CombinedOr, depth \
          <= 3) with n in {0,1,total-2..total+2} and T in {event timestamps -1/0/+1ns, start+k}. Oracle: the limited run handles exactly the longest \
          prefix of the unlimited run (on the real runtime) that an independent evaluator of the limit admits; event_count; end time == timestamp of the \
          last handled event; remaining events (multiset with timestamps) == RefSim pending at the stop; handled + remaining == scheduled. Non-trivial \
